@@ -4523,6 +4523,12 @@ class Pack:
                     pack_index=self.index,
                     pack_checksum=self.get_stored_checksum(),
                 )
+            except FileNotFoundError:
+                # No bitmap next to this pack. Callers probe every pack
+                # (find_commit_bitmaps, get_reachability_provider), and a
+                # repository where only some packs carry a bitmap is the
+                # normal state after a fetch or push.
+                return None
             except ChecksumMismatch:
                 # The bitmap records the checksum of the pack it was built for.
                 # A mismatch means it is stale or was swapped in from another
